@@ -1,10 +1,11 @@
 import EupsModel.Lemmas.CondCorrect
 import EupsModel.Lemmas.CondLex
 import EupsModel.Model.CondPinned
+import EupsModel.Lemmas.TableBlocks
 /-! C11 — table files mean what they say.  Property theorems only: the specification side is in
 `Spec/C11.lean`, the models in `Model/{Cond,CondPinned,TableParse}.lean`, the lemmas in `Lemmas/Cond*.lean`. -/
 namespace EupsModel.C11
-open EupsModel.Cond EupsModel.C11Spec
+open EupsModel.Cond EupsModel.C11Spec EupsModel.TableParse
 
 /-! ## conditions -/
 
@@ -108,5 +109,98 @@ theorem C11_shortcircuit_witness_2 :
 /-- the repaired evaluator on the two witnesses -/
 example : evalCond d3Env (fuelFor (render 0 d3Expr).str) (render 0 d3Expr).str = .ok true := by decide +kernel
 example : evalCond d3Env (fuelFor d3Paren.str) d3Paren.str = .ok true := by decide +kernel
+
+/-! ## block selection -/
+
+/-- **C11_blocks (on classified lines).**  For every table — single lines and if / else-if / else chains of any
+length, every branch holding any lines at all (commands, lines the reader skips, or nothing), conditions written
+in any form — the repaired block state machine of `Table._read`, run over the table's lines, followed by the
+branch selection of `Table.actions`, yields exactly what the table denotes: unconditional commands always, of
+each chain the first branch whose condition is true, else the else branch, in the order written.  "Classified"
+= each line is given as what the two patterns of `_read` make of it (`TableParse.classify`). -/
+theorem C11_blocks_lines (env : Env) (hfl : flavorOK env.flavor = true) (t : List TItem) (hok : t.all TItem.ok = true) :
+    actions repaired env (finish repaired (runL repaired {} (tableLines t))) = .ok (denoteTable env t) :=
+  blocks_lines hfl t hok
+
+/-- reading text lines is classifying them and running the state machine -/
+theorem readLines_classified (v : Variant) (pdir : Option Str) :
+    ∀ (lines : List Str) (ls : List Line) (st : RdState),
+      classifyAll v pdir lines = .ok ls → readLines v pdir st lines = .ok (runL v st ls) := by
+  intro lines
+  induction lines with
+  | nil => intro ls st h; simp only [classifyAll] at h; cases h; rfl
+  | cons l rest ih =>
+    intro ls st h
+    simp only [classifyAll] at h
+    cases hc : classify v pdir l with
+    | ok c =>
+      rw [hc] at h; simp only [Res.bind] at h
+      cases hr : classifyAll v pdir rest with
+      | ok cs =>
+        rw [hr] at h; simp only [Res.bind] at h; cases h
+        simp [readLines, readLine, hc, Res.bind, runL, ih cs _ hr]
+      | err e => rw [hr] at h; simp [Res.bind] at h
+      | fuel => rw [hr] at h; simp [Res.bind] at h
+    | err e => rw [hc] at h; simp [Res.bind] at h
+    | fuel => rw [hc] at h; simp [Res.bind] at h
+
+/-- **C11_blocks (text, given the classification of the lines).**  If `_rewrite` turns the text into `lines` and
+the patterns of `_read` classify these as the lines of table `t`, then
+`Table(text).actions(flavor, types)` is what `t` denotes. -/
+theorem C11_blocks (env : Env) (hfl : flavorOK env.flavor = true) (pdir : Option Str) (text : Str) (lines : List Str)
+    (t : List TItem) (hok : t.all TItem.ok = true) (hrw : rewrite text = .ok lines)
+    (hcl : classifyAll repaired pdir lines = .ok (tableLines t)) :
+    tableActions repaired pdir env text = .ok (denoteTable env t) := by
+  simp only [tableActions, parse, hrw, Res.bind, readLines_classified repaired pdir lines _ _ hcl]
+  exact blocks_lines hfl t hok
+
+/-! ### non-vacuity and the reader as pinned (before the repairs of D4, D31) -/
+
+def envLinux : Env := ⟨Str.ofString "Linux", [Str.ofString "build"]⟩
+def condLinux : CExpr := .atom ⟨Str.ofString "FLAVOR", .flavor, false, Str.ofString "Linux", none, [], [32], [32]⟩
+def actA : Action := ⟨Str.ofString "envSet", [Str.ofString "A", Str.ofString "1"], .none⟩
+/-- `if (FLAVOR == Linux) { } else { envSet(A, 1) }` — the shape `expandTableFile` writes for an empty exact block -/
+def emptyIfTable : List TItem := [.chain ⟨condLinux, [], []⟩ [] (some [some actA]) true]
+def emptyIfText : Str := Str.ofString "if (FLAVOR == Linux) {\n} else {  # otherwise\n  envSet(A, 1)\n}\n"
+/-- the tree with every repair except that of D4 -/
+def onlyD4Pinned : Variant := { repaired with d4 := false }
+
+example : emptyIfTable.all TItem.ok = true := by decide
+example : denoteTable envLinux emptyIfTable = [] := by decide
+/-- the hypotheses of `C11_blocks` hold for the text above -/
+example : rewrite emptyIfText = .ok [Str.ofString "if (FLAVOR == Linux) {", Str.ofString "} else {  ",
+      Str.ofString "envSet(A, 1)", Str.ofString "}"] ∧
+    classifyAll repaired none [Str.ofString "if (FLAVOR == Linux) {", Str.ofString "} else {  ",
+      Str.ofString "envSet(A, 1)", Str.ofString "}"] = .ok (tableLines emptyIfTable) := by decide +kernel
+example : tableActions repaired none envLinux emptyIfText = .ok [] := by decide +kernel
+
+/-- **C11_blocks is false of the block state machine as pinned (D4).**  A chain with a branch that holds no
+command: for flavor Linux the table denotes nothing, the pinned reader applies the else branch — on the classified
+lines and on the text. -/
+theorem C11_empty_branch_witness :
+    emptyIfTable.all TItem.ok = true ∧ denoteTable envLinux emptyIfTable = [] ∧
+    actions onlyD4Pinned envLinux (finish onlyD4Pinned (runL onlyD4Pinned {} (tableLines emptyIfTable))) = .ok [actA] ∧
+    tableActions onlyD4Pinned none envLinux emptyIfText = .ok [actA] := by decide +kernel
+
+/-- **D31 as pinned.**  Blanks (what is left of a trailing comment) after the `{` of `} else {`: the pinned
+pattern does not match the line, which is then skipped as unrecognised, so the else block runs under the if condition:\nfor Darwin nothing is applied, for Linux the else branch. -/
+theorem C11_else_trailing_blank_witness :
+    blockLine { repaired with d31 := false } (Str.ofString "} else {  ") = none ∧
+    blockLine repaired (Str.ofString "} else {  ") = some (.elseOpen true) ∧
+    tableActions { repaired with d31 := false } none ⟨Str.ofString "Darwin", []⟩ emptyIfText = .ok [] ∧
+    tableActions { repaired with d31 := false } none envLinux emptyIfText = .ok [actA] ∧
+    tableActions repaired none ⟨Str.ofString "Darwin", []⟩ emptyIfText = .ok [actA] ∧
+    tableActions repaired none envLinux emptyIfText = .ok [] := by decide +kernel
+
+/-! ## arguments -/
+
+/-- **D20 as pinned.**  `print("1.2", "-j a")`: the pinned tokeniser strips the first and the last quote of the
+argument text as if they were one pair; the repaired one keeps the two arguments written. -/
+theorem C11_args_quote_pair_witness :
+    parseArgs { repaired with d20 := false } (Str.ofString "\"1.2\", \"-j a\"") =
+      [Str.ofString "1.2\", \"-j", Str.ofString "a"] ∧
+    parseArgs repaired (Str.ofString "\"1.2\", \"-j a\"") = [Str.ofString "1.2", Str.ofString "-j a"] ∧
+    parseArgs repaired (Str.ofString "\"foo -j 1.2\"") = [Str.ofString "foo", Str.ofString "-j", Str.ofString "1.2"] := by
+  decide +kernel
 
 end EupsModel.C11
